@@ -44,3 +44,26 @@ Print Assumptions C10_every_master_reproduced_at_its_location.
 Example C10_three_master_rows_ok : rows_ok 3 [[1; 0; 0]; [1; 1; 0]; [1; 0; 1]]%Qc = true.
 Proof. exact three_master_rows_ok. Qed.
 Print Assumptions C10_three_master_rows_ok.
+
+(* ---- variable values that are written as constants (util.collapse_varscalar, default threshold 0) ---- *)
+From U2F Require Import Interp.Collapse Interp.CollapseProofs.
+
+(* a collapsed value is the value of EVERY master ... *)
+Theorem C10_collapsed_value_is_every_masters_value : forall values c,
+  collapse values qc0 = Some c -> forall v, In v values -> v = c.
+Proof. exact collapse_sound. Qed.
+Print Assumptions C10_collapsed_value_is_every_masters_value.
+
+(* ... and a variation model whose masters all have that value yields it at every location: nothing is lost *)
+Theorem C10_constant_masters_interpolate_constant : forall c rows scalars tl,
+  rows <> [] -> (forall r, In r rows -> exists t, r = qc1 :: t) -> scalars = qc1 :: tl ->
+  interpolate scalars (get_deltas (repeat c (length rows)) rows []) = c.
+Proof. exact constant_masters_interpolate_constant. Qed.
+Print Assumptions C10_constant_masters_interpolate_constant.
+
+Example C10_collapse_slips_refuted :
+  let vs := [Q2Qc (-40 # 1); Q2Qc (-70 # 1); Q2Qc (-40 # 1)] in
+  collapse vs qc0 = None /\ collapse_first_last vs qc0 = Some (Q2Qc (-40 # 1)) /\
+  collapse [Q2Qc 250; Q2Qc 250; Q2Qc 270] qc0 = None /\ collapse_any [Q2Qc 250; Q2Qc 250; Q2Qc 270] qc0 = Some (Q2Qc 250).
+Proof. exact slips_refuted. Qed.
+Print Assumptions C10_collapse_slips_refuted.
